@@ -722,6 +722,12 @@ impl ExecutionState {
                 "we're inside a task and scheduler should not yet have run"
             );
 
+            // A stopped execution never schedules again: its remaining tasks are only being dropped
+            // (e.g. a dropped task releases a lock it held), and there is no current task to yield from.
+            if state.current_task == ScheduledTask::Stopped {
+                return false;
+            }
+
             let result = state.schedule();
             // If scheduling failed, yield so that the outer scheduling loop can handle it.
             if result.is_err() {
